@@ -4,9 +4,22 @@ Package parser contains the logic how to convert Record objects from and to plai
 package parser
 
 import (
+	"errors"
 	"github.com/jotaen/klog/klog"
 	"github.com/jotaen/klog/klog/parser/txt"
 )
+
+// newDurationFromString parses a duration. `klog.NewDurationFromString` panics
+// for amounts that are too big to be represented; file contents must never make
+// the parser crash, though, so that case is turned into a regular error here.
+func newDurationFromString(text string) (d klog.Duration, err error) {
+	defer func() {
+		if r := recover(); r != nil {
+			d, err = nil, errors.New("UNREPRESENTABLE_DURATION")
+		}
+	}()
+	return klog.NewDurationFromString(text)
+}
 
 func parse(block txt.Block) (klog.Record, []txt.Error) {
 	lines, initialLineOffset, _ := block.SignificantLines()
@@ -55,7 +68,7 @@ func parse(block txt.Block) (klog.Record, []txt.Error) {
 				errs = append(errs, ErrorUnrecognisedProperty().New(block, nr(lines), headline.PointerPosition, shouldTotalText.Length()-1))
 				return r
 			}
-			shouldTotal, sErr := klog.NewDurationFromString(shouldTotalText.ToString())
+			shouldTotal, sErr := newDurationFromString(shouldTotalText.ToString())
 			if sErr != nil {
 				errs = append(errs, ErrorMalformedShouldTotal().New(block, nr(lines), headline.PointerPosition, shouldTotalText.Length()))
 				return r
@@ -125,7 +138,7 @@ func parse(block txt.Block) (klog.Record, []txt.Error) {
 		createEntry, evErr := func() (func(klog.EntrySummary) txt.Error, txt.Error) {
 			// Try to interpret the entry value as duration.
 			durationCandidate, _ := entry.PeekUntil(txt.IsSpaceOrTab)
-			duration, dErr := klog.NewDurationFromString(durationCandidate.ToString())
+			duration, dErr := newDurationFromString(durationCandidate.ToString())
 			if dErr == nil {
 				entry.Advance(durationCandidate.Length())
 				return func(s klog.EntrySummary) txt.Error {
